@@ -410,7 +410,7 @@ def check_holdpin(rep, prog):
     holds buffers is never given back and the pipe (with everything it owns) outlives its last user"""
     from upv import pathrules as pr
     rep.rule('R-holdpin', 'every upipe_use() a function applies to its own pipe (first parameter) without releasing it again before returning is '
-             'control-dependent on X_check_input(upipe) being true, i.e. taken only when the hold list was empty; one reference per '
+             'control-dependent on X_check_input(upipe) being true, i.e. taken only when the hold list was empty (or, under X_check_input() false, re-taken by a function that released it under the same condition earlier: the setters that close and reopen a sink); one reference per '
              'non-empty hold list is what the drain / flush code gives back (19 of 19 such sites in the tree have this form)')
     n = 0
     for uname, u in sorted(prog.units.items()):
@@ -450,8 +450,16 @@ def check_holdpin(rep, prog):
                             continue
                         break
                     return isinstance(c, dict) and c.get('k') == 'call' and (c.get('fn') or '').endswith('_check_input') and pol != neg
+
+                def cm_not(c, pol, cm=cm):
+                    return cm(c, not pol)
                 n += 1
                 ok = pr.control_dependent(fn, ev, pos, cm)
+                if not ok and pr.control_dependent(fn, ev, pos, cm_not):
+                    # the list is not empty: taking the pin again is right only where the same function gave it back under the
+                    # same condition (a setter that closes and reopens its sink: file sink, udp sink)
+                    ok = any(pr.control_dependent(fn, ev, r_, cm_not) for r_ in ev.find(lambda x: own(x, 'upipe_release'))
+                             if ev.reach((r_[0], r_[1]), lambda x, pos=pos: x is pos[2], None)[0])
                 rep.add('R-holdpin', '%s:upipe_use(upipe)#%d' % (
                     fn.name, [p_[2] is pos[2] for p_ in ev.find(lambda x: own(x, 'upipe_use'))].index(True)),
                     HOLDS if ok else VIOLATED, '%s:%s' % (fn.file, pos[2].get('l')),
